@@ -208,11 +208,12 @@ def byteLen (cs : List Char) : Nat := (String.ofList cs).utf8ByteSize
 def stripPrefix (p s : String) : String := (s.drop p.length).toString
 
 /-- text → (top-level fragments, groups) through front end and middle -/
-def midOf (cells : Span) (esc : List (Cell × List Char)) : Option (List Frag × List (List Frag)) :=
+def midOf (env : Env) (cells : Span) (esc : List (Cell × List Char)) :
+    Option (List Frag × List (List Frag)) :=
   match theCatalogue with
   | none => none
   | some cat =>
-    match endorseAll byteLen cat cells esc with
+    match endorseAll (segColumns env) cat cells esc with
     | none => none
     | some (fs, gs) => some (fs.map (·.frag), gs.map fun g => g.map (·.frag))
 
@@ -231,23 +232,23 @@ def handle (mode : String) (fields : List String) : String :=
     match parseCssTag (unhex inp) with
     | none => "err"
     | some ts => "tags=" ++ joinWith ";" (ts.map hexOfChars)
-  | "back", [pretty, cfgTok, css0, cells, css, frags, groups] =>
-    -- pretty|compressed cfg css0hex cells=.. css=.. frags=.. groups=..
+  | "back", [pretty, cfgTok, css0, cells, css, frags, groups, env] =>
+    -- pretty|compressed cfg css0hex cells=.. css=.. frags=.. groups=.. env=..
     let cfg := pCfg cfgTok (unhex css0)
-    let root := svgRoot byteLen cfg (pCells (stripPrefix "cells=" cells)) (pCss (stripPrefix "css=" css))
+    let root := svgRoot (segColumns (parseEnv env)) cfg (pCells (stripPrefix "cells=" cells)) (pCss (stripPrefix "css=" css))
       (pFrags (stripPrefix "frags=" frags)) (pGroups (stripPrefix "groups=" groups))
     "ok " ++ hexOfChars (Node.render cfg.den (pretty == "pretty") 0 root)
-  | "mid", [cells, esc] =>
-    match midOf (pCells (stripPrefix "cells=" cells)) (pEsc (stripPrefix "esc=" esc)) with
+  | "mid", [cells, esc, env] =>
+    match midOf (parseEnv env) (pCells (stripPrefix "cells=" cells)) (pEsc (stripPrefix "esc=" esc)) with
     | none => "panic"
     | some (fs, gs) => "frags=" ++ showFrags fs ++ " groups=" ++ showGroups gs
   | "full", [pretty, cfgTok, css0, inp, env] =>
     let fo := front (parseEnv env) (unhex inp)
-    match midOf fo.cells fo.escaped with
+    match midOf (parseEnv env) fo.cells fo.escaped with
     | none => "panic"
     | some (fs, gs) =>
       let cfg := pCfg cfgTok (unhex css0)
-      let root := svgRoot byteLen cfg fo.cells fo.css fs gs
+      let root := svgRoot (segColumns (parseEnv env)) cfg fo.cells fo.css fs gs
       "ok " ++ hexOfChars (Node.render cfg.den (pretty == "pretty") 0 root)
   | _, _ => "bad-request"
 
